@@ -207,6 +207,8 @@ pub struct KnownFindings {
 }
 impl KnownFindings {
     pub fn load(path: &str) -> KnownFindings {
+        // debugging aid: VERIF_KNOWN_FINDINGS=<file> (e.g. an empty file) to see replay files of known findings
+        let path = &std::env::var("VERIF_KNOWN_FINDINGS").unwrap_or_else(|_| path.to_string());
         let Ok(txt) = std::fs::read_to_string(path) else { return KnownFindings::default() };
         let v: Value = serde_json::from_str(&txt).unwrap_or_else(|e| harness_error(&format!("known findings file unreadable: {e}")));
         let strs = |x: &Value| x.as_array().map(|a| a.iter().filter_map(|s| s.as_str().map(String::from)).collect::<Vec<_>>()).unwrap_or_default();
